@@ -37,7 +37,10 @@ def handle : List String → Option String
     pure ((PyGen.next F t d real).getD "ok")
   | ["c03.report", f, t, real] => do
     let F ← parseForest f
-    pure (expect (optNatOf (reportSpec F (← parseOptNat t))) real)
+    let t ← parseOptNat t
+    let r := expect (optNatOf (reportSpec F t)) real
+    if r != "ok" then pure r else
+    pure ((PyGen.reportable F t real).getD "ok")
   -- default classification, relation on the real result
   | ["c03.classify", f, gtax, ds, closest, predicted, primary, next, report] => do
     let F ← parseForest f
@@ -46,7 +49,8 @@ def handle : List String → Option String
     let ok := defaultOk F gtax ds (← closest.toNat?) (← parseOptNat predicted) (← parseOptNat primary)
       (← parseOptNat next) (← parseOptNat report)
     let m := classifyDefault F gtax ds
-    pure (verdict ok s!"default-mode statement violated; model says {resultStr m} report={optNatOf (reportable F m.predicted)}")
+    if !ok then pure (verdict ok s!"default-mode statement violated; model says {resultStr m} report={optNatOf (reportable F m.predicted)}") else
+    pure ((PyGen.classify F gtax ds false s!"1/{predicted}/{primary}/{closest}/0/0/0").getD "ok")
   -- closest genomes list
   | ["c09.closest", ds, n, lst, closestMatch] => do
     let ds ← parseNats ds
@@ -55,7 +59,8 @@ def handle : List String → Option String
     let cm ← closestMatch.toNat?
     if !closestOk ds n lst then pure s!"FAIL not the (distance, reference order) prefix; expected {natsOf (closestList ds n)}" else
     if lst.head? != some cm && n > 0 && ds.length > 0 then pure s!"FAIL first entry {lst.head?} is not the closest match {cm}" else
-    pure (if closestList ds n == lst then "ok" else "FAIL model/spec disagree (closest)")
+    if closestList ds n != lst then pure "FAIL model/spec disagree (closest)" else
+    pure (if ds.isEmpty then "ok" else (PyGen.closestList ds n (natsOf lst ++ "/" ++ toString cm)).getD "ok")
   | ["c09.argsort", ds, real] => do
     let ds ← parseNats ds
     pure (expect (natsOf (stableArgsort ds)) real)
@@ -78,7 +83,14 @@ def handle : List String → Option String
     let ds ← parseNats ds
     let ok := strictOk F gtax ds (← parseBool success) (← parseOptNat predicted) (← parseOptNat primary) (← closest.toNat?)
       (← parseNats warn) (← parseBool failed)
-    pure (verdict ok s!"strict-mode statement violated; model says {resultStr (classifyStrict F gtax ds)}")
+    if !ok then pure (verdict ok s!"strict-mode statement violated; model says {resultStr (classifyStrict F gtax ds)}") else
+    -- the definition generated from the current source of classify(): same observable fields (the "not closest" warning is derived)
+    let prim ← parseOptNat primary
+    let clo ← closest.toNat?
+    let warnL ← parseNats warn
+    let notClosest := match prim with | some p => p != clo | none => false
+    pure ((PyGen.classify F gtax ds true
+      s!"{success}/{predicted}/{primary}/{closest}/{boolOf (!warnL.isEmpty)}/{boolOf notClosest}/{failed}").getD "ok")
   | ["tax.path", f, t, real] => do
     let F ← parseForest f
     pure (expect (natsOf (F.path (← t.toNat?))) real)
